@@ -62,6 +62,9 @@ class DetMixin:
             o = run(hashseed=0, reverse_includes=True)
             if sig(o) != sig(base):
                 diffs.append('include directories in reverse order')
+            o = run(hashseed=0, verbose=3)
+            if (o.kind, o.image) != (base.kind, base.image):
+                diffs.append('verbosity (-v -v -v)')
             a1 = run(hashseed=0, absolute=True)
             a2 = run(hashseed=0, absolute=True, cwd='/')
             if sig(a1) != sig(a2):
@@ -143,6 +146,14 @@ def shapes(tier, seed):
     src.append(c17.SplitShape('preprocessor-symbols-containing-one-another', prog={'main.asm': prog}, files=files,
                               cfgargs=dict(origin=Sym('o0', 0, 0x1000), consts={'v2': c02.SYMS['v2'], 'o0': (0, 0x1000)}),
                               props=['C17'], binary=True, start=Sym('o0', 0, 0x1000), width=48, expect=['ok']))
+    # mnemonics that contain one another (`mov.b`, `mov`, `b`): which one a statement is must not depend on any order
+    from .instr import isa, code
+    # (`b.mov` next to `b` and `mov` is left out: with several statements allowed on one line it reads as `b.` `mov`)
+    insn = {'mov.b': {'bytecode': code('op_mb', 8)}, 'mov': {'bytecode': code('op_m', 8)}, 'b': {'bytecode': code('op_b', 8)},
+            'st.w': {'bytecode': code('op_sw', 8)}, 'st': {'bytecode': code('op_s', 8)}}
+    for text in ('mov.b', 'mov', 'b', 'st.w'):
+        src.append(InstrShape(f'mnemonics-containing-one-another:{text}', config=isa(instructions=dict(insn)),
+                              stmt={'mnemonic': text, 'text': text, 'uses': []}, props=['C01'], expect=['ok'], width=48))
     out = []
     for s in src:
         d = det(s)
